@@ -24,7 +24,7 @@ CFG = """CONSTANTS Which = "{which}"
  ErrVal = "ERR"
 INIT SInit
 NEXT Next
-INVARIANT Coherent
+{extra}INVARIANT Coherent
 INVARIANT FlagIffDirty
 INVARIANT AncestralOK
 INVARIANT SkipUntouched
@@ -38,13 +38,14 @@ def run(chk: Check):
                 "or via cached/transient calcs) under simulate / assign / auto-update toggle / update; non-trivial = "
                 "a simulate with auto-update off on a model where a child depends on a parent through a cached calc")
     chk.trusted += ["integer coding of draws in harness/sim_driver.py (exact in float32)"]
-    chk.mc("MC_Simulate.tla", CFG.format(which="A", slots=0, fs="TRUE"), tag="graphA",
+    chk.mc("MC_Simulate.tla", CFG.format(which="A", slots=0, fs="TRUE", extra=""), tag="graphA",
            expect_actions=["DoSimulate", "DoAssign", "DoSetAuto", "DoUpdate", "DoTargets"], timeout=1500,
            what="graph A (x -> cached calc -> y), all skip sets, both auto settings, all histories")
     if not chk.quick:
-        chk.mc("MC_Simulate.tla", CFG.format(which="B", slots=0, fs="TRUE"), tag="graphB", timeout=3000,
-               what="graph B (adds z depending on y directly and on x), all skip sets")
-    r = run_tlc("MC_Simulate.tla", CFG.format(which="A", slots=0, fs="FALSE"), tag="C17-cached", timeout=600)
+        chk.mc("MC_Simulate.tla", CFG.format(which="B", slots=0, fs="TRUE", extra="CONSTRAINT Depth8\n"), tag="graphB-depth8",
+               timeout=3300, coverage=False,
+               what="graph B (adds z depending on y directly and on x), all skip sets, every history of at most 7 operations")
+    r = run_tlc("MC_Simulate.tla", CFG.format(which="A", slots=0, fs="FALSE", extra=""), tag="C17-cached", timeout=600)
     chk.note(f"design variant 'parameters read from the cache': {r.error} (expected invariant:AncestralOK)")
     if r.error != "invariant:AncestralOK":
         raise MachineryError("reading cached parameters should violate AncestralOK with auto-update off")
